@@ -53,4 +53,24 @@ func Summary returns (err)
   ensures @log-unreadable [C10] err == nil ==> !RdFailed(lrd)
   ensures @log-malformed [C09] err == nil ==> (forall i int :: {RdLine(lrd, i)} 0 <= i && i < RdN(lrd) ==> !Malformed(lrd, i, cc))
   ensures @reports-loss [C17] err == nil ==> (sinkFailed[out] ==> old(sinkFailed[out])) && sinkPend[out] == 0
+
+// ---------------------------------------------------------------------------------------------
+// summary DATE (C06, C07): the period handed to the summary command is exactly the calendar day of the requested
+// date IN THAT DATE'S OWN LOCATION: from 00:00:00.000000000 to 24:00:00 minus one nanosecond of (year, month, day)
+// of t, both built with t.Location() - the process time zone plays no part. (time.Date and the calendar fields are
+// uninterpreted: the contract pins HOW the two bounds are assembled, the calendar arithmetic is the library's.)
+// ---------------------------------------------------------------------------------------------
+type summary.summaryCmd(logStream, dbStream, sc) returns (err)
+  modifies *
+  modifies ghost(cbLen, cbErr, cbNode, cbStop, cbRet, cbLineNo, cbLine, cbHeader, cbElems, cbNElems, scRd, scPos, privLo, evOf, accKey, accP, accN, accH, bufSink, bufSticky, sinkFailed, sinkPend, prLen, prSink, prArg, prArgs, csvLen, csvW, csvN, csvRow, tnodes, tdepth, tmax, tmapOf, jlen, tvLen, tv, tseg, tvSet, procLen, procTime, procSrc, lastOpen, cfgRd)
+
+func NewSummaryCommand$1$1$1 returns (err)
+  props C06 C07 C08
+  requires @two-streams len(streams) == 2 && o != nil && summary != nil
+  dyncall 1 summary.summaryCmd
+  modifies *
+  modifies ghost(cbLen, cbErr, cbNode, cbStop, cbRet, cbLineNo, cbLine, cbHeader, cbElems, cbNElems, scRd, scPos, privLo, evOf, accKey, accP, accN, accH, bufSink, bufSticky, sinkFailed, sinkPend, prLen, prSink, prArg, prArgs, csvLen, csvW, csvN, csvRow, tnodes, tdepth, tmax, tmapOf, jlen, tvLen, tv, tseg, tvSet, procLen, procTime, procSrc, lastOpen, cfgRd)
+  ghost before dyncall 1 {
+    assert @day-window [C06 C07] o.FilterConfig.BeginningTime != nil && o.FilterConfig.EndTime != nil && *o.FilterConfig.BeginningTime == DateOf(YearOf(t), MonthOf(t), DayOf(t), 0, 0, 0, 0, LocOf(t)) && *o.FilterConfig.EndTime == DateOf(YearOf(t), MonthOf(t), DayOf(t), 24, 0, 0, 0 - 1, LocOf(t))
+  }
 @*/
